@@ -106,6 +106,8 @@ def gen(src, consts):
         'bodyWait': ('channel.py', 'Channel', '_build_message_body', 'self.check_for_errors()', 'time.sleep(IDLE_WAIT)'),
         'inboundWait': ('channel.py', 'Channel', 'build_inbound_messages', 'self.check_for_errors()', 'time.sleep(IDLE_WAIT)'),
     }
+    loops_ok = True
+    bad_loops = []
     for name, (rel, cls, fn, chk, slp) in loops.items():
         f = src.func(rel, cls, fn)
         ws = [n for n in ast.walk(f) if isinstance(n, ast.While)]
@@ -115,7 +117,8 @@ def gen(src, consts):
             if chk in wt and slp in wt and wt.find(chk) < wt.find(slp):
                 ok = True
         if not ok:
-            raise ExtractError('%s.%s: the wait loop no longer checks for errors before every %s' % (cls, fn, slp))
+            loops_ok = False
+            bad_loops.append('%s.%s' % (cls, fn))
     sc = src.func('channel.py', 'Channel', 'start_consuming')
     sct = ast.unparse(sc)
     if 'self.process_data_events(' not in sct or 'time.sleep(IDLE_WAIT)' not in sct:
@@ -135,11 +138,11 @@ def gen(src, consts):
             'def noEraseAfterIoOpen : Bool := %s\n'
             '/-- every wait loop (RPC reply, connection state, message body, inbound generator) runs check_for_errors\n'
             '    before each IDLE_WAIT sleep -/\n'
-            'def waitLoopsPollErrors : Bool := true\n'
+            'def waitLoopsPollErrors : Bool := %s\n'
             '/-- IDLE_WAIT sleeps between two error checks of an idle start_consuming loop -/\n'
             'def consumeLoopSleeps : Nat := %d\n'
             'end Amqp.Gen.Transport\n' % ('clears' if clears else 'no clear', 'rebinds' if rebinds else 'no rebind',
-                                        str(same_list).lower(), str(no_erase).lower(), n_sleeps))
+                                        str(same_list).lower(), str(no_erase).lower(), str(loops_ok).lower(), n_sleeps))
 
 
 FILES = {'Transport.lean': gen}
